@@ -20,5 +20,8 @@ sp=set(norm(x) for x in stable); pp=set(norm(x) for x in passed)
 missing=sp-pp
 print("stable_pass=%d passed_now=%d missing_from_stable=%d"%(len(sp),len(pp),len(missing)))
 for m in sorted(missing)[:20]: print("  MISSING",m)
+import sys; sys.exit(1 if missing else 0)
 PY
+rc=$?
 rm -f /tmp/_bl.xml /tmp/_bl.out
+exit $rc
